@@ -25,7 +25,7 @@
 (***************************************************************************)
 EXTENDS Naturals, Sequences, FiniteSets, TLC, Json, SequencesExt, FiniteSetsExt
 
-CONSTANTS MaxExtra, Ids, Times, Vals, Unbalanced
+CONSTANTS MaxExtra, Ids, Times, Vals, Unbalanced, Unmeasured
 VARIABLES extra, phase
 vars == <<extra, phase>>
 Checked == phase = "checked"
@@ -38,7 +38,10 @@ IdSeq == SetToSortSeq(Ids, LAMBDA a, b : a > b)
 \* of the second one), so that -- unless an extra row supplies one -- its likelihood has an output without observations in
 \* front of one with observations
 CT_Min == CHOOSE m \in Ids : \A j \in Ids : m <= j
-BaseKind(i) == IF Unbalanced /\ Cardinality(Ids) > 1 /\ i = CT_Min THEN "m2" ELSE "m1"
+\* Unmeasured: that individual's only base row of a mapped observable has a MISSING value -- the individual is in the dataset
+\* (covariate row, perhaps doses, perhaps extra rows) and in the population, with a likelihood that may have no term at all
+BaseKind(i) == IF Cardinality(Ids) > 1 /\ i = CT_Min
+               THEN (IF Unmeasured THEN "mv" ELSE IF Unbalanced THEN "m2" ELSE "m1") ELSE "m1"
 Base == FoldLeft(LAMBDA acc, i : acc \o <<[id |-> i, kind |-> BaseKind(i), t |-> 1, v |-> 1], [id |-> i, kind |-> "c", t |-> 0, v |-> i]>>,
                  <<>>, IdSeq) \o <<[id |-> IdSeq[1], kind |-> "m2", t |-> 2, v |-> 2]>>   \* every mapped observable occurs
 Data == extra \o Base
